@@ -36,44 +36,93 @@ type postRec struct {
 	thread      string
 }
 
+var c05Posters = 2
+
 func c05Body(x *engine.X) {
-	nposts := [2]int{1 + x.Pick(2, "posts of P1"), 1 + x.Pick(2, "posts of P2")}
+	nposts := [3]int{1 + x.Pick(2, "posts of P1"), 1 + x.Pick(2, "posts of P2"), 0}
+	if c05Posters == 3 {
+		nposts[2] = x.Pick(2, "posts of P3") // 0 or 1
+	}
 	nested := x.Pick(2, "a posted handler posts again") == 1
-	fifo := x.Pick(2, "loop arms/cancels a FIFO read between polls") == 1
+	// loop-side activity between polls: 0 none, 1 arm+cancel a FIFO read, 2 arm+cancel a FIFO write on a full
+	// pipe, 3 arm a FIFO write on a full pipe and drain it (the write interest is disarmed inside Poll's dispatch)
+	loopSide := x.Pick(4, "loop-side poller activity between polls")
 	epfd := lowestFreeFd()
 	ioc, err := sonic.NewIO()
 	if err != nil {
 		engine.HarnessError("NewIO: %v", err)
 	}
 	var f sonic.File
-	r, w, _ := kern.Pipe(0)
+	r, w, _ := kern.Pipe(4096)
 	f, err = sonic.Open(ioc, fmt.Sprintf("/proc/self/fd/%d", r), syscall.O_RDONLY|syscall.O_NONBLOCK, 0)
 	syscall.Close(r)
 	if err != nil {
 		engine.HarnessError("Open: %v", err)
 	}
+	var fw sonic.File
+	if loopSide >= 2 {
+		fw, err = sonic.Open(ioc, fmt.Sprintf("/proc/self/fd/%d", w), syscall.O_WRONLY|syscall.O_NONBLOCK, 0)
+		if err != nil {
+			engine.HarnessError("Open(w): %v", err)
+		}
+		syscall.SetNonblock(w, true)
+		fill := make([]byte, 4096)
+		for {
+			if _, err := syscall.Write(w, fill); err != nil {
+				break
+			}
+		}
+		if kern.WouldNotBlockWrite(w) {
+			engine.HarnessError("the pipe is still writable after filling it")
+		}
+	}
 	x.Defer(func() {
 		verifshim.Hooks = nil
 		f.Close()
+		if fw != nil {
+			fw.Close()
+		}
 		syscall.Close(w)
 		ioc.Close()
 	})
 	s := engine.NewSched(x)
 	var ran []postRec
-	expected := nposts[0] + nposts[1]
+	expected := nposts[0] + nposts[1] + nposts[2]
+	nthreads := 2
+	if nposts[2] > 0 {
+		nthreads = 3
+	}
 	if nested {
 		expected++
 	}
 	threadName := func() string { return s.CurrentName() }
 	finishedPosters := 0
+	writeDone := 0
 	s.Go("L", func() {
 		buf := make([]byte, 4)
 		for iter := 0; iter < 12; iter++ {
-			if fifo && iter < 2 {
+			switch {
+			case loopSide == 1 && iter < 2:
 				f.AsyncRead(buf, func(error, int) {})
 				f.Cancel()
+			case loopSide == 2 && iter < 2:
+				fw.AsyncWrite(buf, func(error, int) {})
+				fw.Cancel()
+			case loopSide == 3 && iter == 0:
+				fw.AsyncWrite(buf, func(err error, n int) {
+					writeDone++
+					if err != nil || n != len(buf) {
+						panic(fmt.Sprintf("deferred FIFO write completed with (%v,%d)", err, n))
+					}
+				})
+				big := make([]byte, 1<<16)
+				for {
+					if n, err := f.Read(big); err != nil || n == 0 {
+						break
+					}
+				}
 			}
-			if len(ran) >= expected && finishedPosters == 2 {
+			if len(ran) >= expected && finishedPosters == nthreads && (loopSide != 3 || writeDone > 0) {
 				return
 			}
 			s.Block(func() bool { return kern.Readable(epfd) }, "the epoll descriptor is not readable")
@@ -82,7 +131,7 @@ func c05Body(x *engine.X) {
 			}
 		}
 	})
-	for pi := 0; pi < 2; pi++ {
+	for pi := 0; pi < nthreads; pi++ {
 		pi := pi
 		s.Go(fmt.Sprintf("P%d", pi+1), func() {
 			for k := 0; k < nposts[pi]; k++ {
@@ -90,7 +139,7 @@ func c05Body(x *engine.X) {
 				err := ioc.Post(func() {
 					ran = append(ran, postRec{pi, k, threadName()})
 					if nested && pi == 0 && k == 0 {
-						if err := ioc.Post(func() { ran = append(ran, postRec{2, 0, threadName()}) }); err != nil {
+						if err := ioc.Post(func() { ran = append(ran, postRec{9, 0, threadName()}) }); err != nil {
 							panic(fmt.Sprintf("nested Post: %v", err))
 						}
 					}
@@ -119,7 +168,10 @@ func c05Body(x *engine.X) {
 	}
 	deadlock := s.Run()
 	verifshim.Hooks = nil
-	x.Note("posts=%v nested=%v fifo=%v schedule: %s", nposts, nested, fifo, strings.Join(s.Trace, " "))
+	x.Note("posts=%v nested=%v loop-side=%d schedule: %s", nposts, nested, loopSide, strings.Join(s.Trace, " "))
+	if loopSide == 3 && writeDone != 1 && deadlock == "" {
+		x.Fail("post/loop-side-write-completions", "the deferred FIFO write completed %d times", writeDone)
+	}
 	if len(s.Trace) > 4 {
 		x.Nontrivial()
 	}
@@ -138,7 +190,7 @@ func c05Body(x *engine.X) {
 	}
 	// exactly once, on L, per-poster order
 	seen := map[[2]int]int{}
-	last := map[int]int{0: -1, 1: -1, 2: -1}
+	last := map[int]int{0: -1, 1: -1, 2: -1, 9: -1}
 	for _, r := range ran {
 		seen[[2]int{r.poster, r.seq}]++
 		if r.thread != "L" {
@@ -161,7 +213,7 @@ func c05Body(x *engine.X) {
 		x.Fail("post/Posted-inexact", "Posted()=%d at quiescence", got)
 	}
 	if got := ioc.Pending(); got != 0 {
-		x.Fail("post/Pending-inexact", "Pending()=%d at quiescence with nothing in flight: an update of the pending counter was lost (posts %v fifo %v)", got, nposts, fifo)
+		x.Fail("post/Pending-inexact", "Pending()=%d at quiescence with nothing in flight: an update of the pending counter was lost (posts %v loop-side activity %d)", got, nposts, loopSide)
 	}
 	x.Outcome(fmt.Sprintf("ran%d/order%v", len(ran), orderKey(ran)))
 }
@@ -176,8 +228,10 @@ func orderKey(ran []postRec) string {
 
 func c05DFS(tier string) *engine.DFS {
 	dev := 2
+	c05Posters = 2
 	if tier == "thorough" {
 		dev = 3
+		c05Posters = 3
 	}
 	return &engine.DFS{Name: "post@" + tier, Body: c05Body, Procs: 16, WorkerProcs: 2, ShardDepth: 4, MaxDeviations: dev, MaxPoints: 1500, HangTimeout: 30 * time.Second}
 }
@@ -230,7 +284,7 @@ func C05(tier string) *engine.Report {
 	res := d.Run()
 	tot.Add(res, rep)
 	c05RacePass(rep)
-	tot.Fill(rep, "all interleavings up to the preemption bound of loop L + posters P1,P2 (1-2 posts each; optionally a nested post; optionally loop-side arm/cancel of a FIFO read) over the real poller instrumented by an overlay rewrite (mutex, atomics, plain pending accesses, eventfd read/write are scheduling points); "+
+	tot.Fill(rep, "all interleavings up to the preemption bound of loop L + posters P1,P2 (1-2 posts each; optionally a nested post; loop-side activity between polls: none | arm+cancel a FIFO read | arm+cancel a FIFO write | a FIFO write disarmed inside Poll) over the real poller instrumented by an overlay rewrite (mutex, atomics, plain pending accesses, eventfd read/write are scheduling points); "+
 		"non-trivial = the schedule switched threads at least twice", d.MaxDeviations)
 	// model_checking keys: every schedule is one complete execution of the implementation
 	rep.Coverage["states"] = res.Executions
